@@ -32,6 +32,50 @@ theorem set_sort_compare_total_order :
 example : (Set.setSort Set.keyCmp [7, 2, 9, 4, 3, 2]).1 = [2, 2, 3, 4, 7, 9] ∧ (Set.setSort Set.keyCmp [7, 2, 9, 4, 3, 2]).2 = 4 := by
   decide
 
+/-- non-vacuity (audit): `CmpOK` is met by libyang's comparison on position keys; six items, elements (even) and text nodes (odd)
+mixed, one duplicate -/
+example : (Set.setSort Set.keyCmp [7, 2, 9, 4, 3, 2]).1.Pairwise (Set.Le Set.keyCmp) ∧
+    (Set.setSort Set.keyCmp [7, 2, 9, 4, 3, 2]).1.Perm [7, 2, 9, 4, 3, 2] :=
+  set_sort_sorted_perm Set.keyCmp set_sort_compare_total_order.1 [7, 2, 9, 4, 3, 2]
+
+-- AUDIT (note, no repair needed): the restriction to well-formed items in `set_sort_compare_total_order` is essential.  On raw
+-- `Item`s `set_sort_compare` is NOT a `CmpOK` comparison (two different elements carrying the same `pos` compare `-1` both ways),
+-- so `set_sort_sorted_perm` says nothing about arrays whose positions were not assigned injectively.  `keyCmp` covers element
+-- and text items only; `set_sort_compare_total_order_with_root` below adds the root item (`pos = 0`); metadata items are outside
+-- the model (`sortCompare` has no metadata branch).
+/-- audit: `set_sort_compare` on unrestricted items violates the antisymmetry axiom of `CmpOK` -/
+theorem set_sort_compare_raw_not_total_order : ¬ Set.CmpOK Set.sortCompare := fun h =>
+  absurd ((h.anti ⟨1, 1, .elem⟩ ⟨1, 2, .elem⟩).1 (by decide)) (by decide)
+
+/-- items of a node-set that may contain the root: key `0` is the root item (`pos = 0`, type root), every other key as `keyItem` -/
+def keyItemR (k : Nat) : Set.Item := if k = 0 then ⟨0, 0, .root⟩ else Set.keyItem k
+def keyCmpR (a b : Nat) : Int := Set.sortCompare (keyItemR a) (keyItemR b)
+
+theorem keyCmpR_spec (a b : Nat) : (keyCmpR a b < 0 ↔ a < b) ∧ (keyCmpR a b > 0 ↔ b < a) := by
+  by_cases ha : a = 0 <;> by_cases hb : b = 0
+  · subst ha; subst hb; decide
+  · subst ha
+    have h : keyCmpR 0 b = -1 := by
+      simp [keyCmpR, keyItemR, hb, Set.sortCompare, Set.keyItem]
+    rw [h]; omega
+  · subst hb
+    have h : keyCmpR a 0 = 1 := by
+      simp [keyCmpR, keyItemR, ha, Set.sortCompare, Set.keyItem]
+    rw [h]; omega
+  · have h : keyCmpR a b = Set.keyCmp a b := by simp [keyCmpR, keyItemR, ha, hb, Set.keyCmp]
+    rw [h]; exact ⟨Set.keyCmp_lt a b, Set.keyCmp_gt a b⟩
+
+/-- audit: `set_sort_compare_total_order` extended by the root item, which real node-sets contain (`/ | /a`, `ancestor::node()`) -/
+theorem set_sort_compare_total_order_with_root :
+    Set.CmpOK keyCmpR ∧ ∀ a b, (keyCmpR a b < 0 ↔ a < b) ∧ (keyCmpR a b > 0 ↔ b < a) := by
+  refine ⟨⟨fun a b => ?_, fun a b => ?_, fun a b c => ?_⟩, keyCmpR_spec⟩
+  · rw [(keyCmpR_spec b a).1, (keyCmpR_spec a b).2]
+  · rw [(keyCmpR_spec a b).2, (keyCmpR_spec b a).2]; omega
+  · rw [(keyCmpR_spec a b).2, (keyCmpR_spec b c).2, (keyCmpR_spec a c).2]; omega
+
+/-- non-vacuity (audit): a node-set with the root, two elements and two text nodes -/
+example : (Set.setSort keyCmpR [7, 2, 0, 4, 3]).1 = [0, 2, 3, 4, 7] := by decide
+
 /-! ## Node-set union (`set_sorted_merge`) -/
 
 /-- For sorted duplicate-free `trg` and `src`, `set_sorted_merge` with its `count`/`dup_count` block copies never indexes outside
@@ -41,6 +85,11 @@ theorem sorted_merge_union (trg src : List Nat) (ht : trg.Pairwise (· < ·)) (h
   Set.sortedMerge_spec trg src ht hs
 
 example : Set.sortedMerge [1, 4, 6, 8, 9] [2, 4, 5, 6, 7, 12] = some [1, 2, 4, 5, 6, 7, 8, 9, 12] := by decide
+
+/-- non-vacuity (audit): both hypotheses at overlapping five- and six-element sets (two common keys, interleaved runs) -/
+example : ∃ r, Set.sortedMerge [1, 4, 6, 8, 9] [2, 4, 5, 6, 7, 12] = some r ∧ r.Pairwise (· < ·) ∧
+    ∀ x, x ∈ r ↔ x ∈ [1, 4, 6, 8, 9] ∨ x ∈ [2, 4, 5, 6, 7, 12] :=
+  sorted_merge_union _ _ (by decide) (by decide)
 
 /-! ## Conversions (`lyxp_set_cast`) -/
 section
@@ -61,6 +110,13 @@ theorem cast_number (c : Comp.Cfg) (o : Comp.Opnd N) : Comp.C.cast c o .num = .n
 
 example : Comp.Spec.toBool (N := N) (.ns [[0x61]]) = true ∧ Comp.Spec.toBool (N := N) (.str []) = false := by
   simp [Comp.Spec.toBool]
+
+/-- non-vacuity (audit): the three casts (no hypotheses) at a two-node node-set and a boolean, for every number type -/
+example (c : Comp.Cfg) : Comp.C.cast (N := N) c (.ns [[0x62], [0x61]]) .str = .str [0x62] ∧
+    Comp.C.cast (N := N) c (.ns [[0x62], [0x61]]) .bool = .bool true ∧
+    Comp.C.cast (N := N) c (.bool true) .num = .num XNum.one ∧
+    Comp.C.cast (N := N) c (.ns [[0x31], [0x32]]) .num = .num (XNum.ofStr c.strtold [0x31]) :=
+  ⟨cast_nodeset_string c _, cast_bool c _, cast_number c _, cast_number c _⟩
 
 /-! ## Comparisons (`moveto_op_comp`) -/
 
@@ -88,6 +144,24 @@ theorem compare_nsbool_eqne_nonempty (c : Comp.Cfg) (op : BinOp) (hop : Comp.isE
 
 example : ¬ Comp.NsBoolPair (N := N) (.ns [[0x31], [0x32]]) (.str [0x32]) := by simp [Comp.NsBoolPair]
 
+/-- non-vacuity (audit): `¬ NsBoolPair` at node-set × node-set (two nodes each, one common value: `=` is true), node-set × number
+under `<`, boolean × string under `!=` -/
+example (c : Comp.Cfg) (n : N) :
+    Comp.C.opComp (N := N) c .eq (.ns [[0x31], [0x32]]) (.ns [[0x33], [0x32]]) = true ∧
+    Comp.C.opComp c .lt (.ns [[0x31], [0x32]]) (.num n) =
+      Comp.Spec.compare c .lt (.ns [[0x31], [0x32]]) (.num n) ∧
+    Comp.C.opComp (N := N) c .ne (.bool true) (.str [0x78]) = false := by
+  refine ⟨?_, compare_table_partial c _ _ _ (by simp [Comp.NsBoolPair]), ?_⟩
+  · rw [compare_table_partial c _ _ _ (by simp [Comp.NsBoolPair])]
+    simp [Comp.Spec.compare, Comp.Spec.cmpAtom, Comp.isEqNe, Comp.cmpStr, Comp.Spec.toStr]
+  · rw [compare_table_partial c _ _ _ (by simp [Comp.NsBoolPair])]
+    simp [Comp.Spec.compare, Comp.Spec.cmpAtom, Comp.isEqNe, Comp.cmpBool, Comp.Spec.toBool]
+
+/-- non-vacuity (audit): `isEqNe` at `!=`, a two-node node-set against `true()` -/
+example (c : Comp.Cfg) : Comp.C.opComp (N := N) c .ne (.ns [[0x61], [0x62]]) (.bool true) = false := by
+  rw [compare_nsbool_eqne_nonempty c .ne (by decide)]
+  simp [Comp.Spec.compare, Comp.Spec.cmpAtom, Comp.isEqNe, Comp.cmpBool, Comp.Spec.toBool]
+
 end
 
 /-! ## number → string (F38) -/
@@ -103,6 +177,9 @@ theorem cast_number_string_partial (d : NumLex.Dec) (h : d.normalize.scale ≤ 1
 example : NumLex.fmtC ⟨true, 1250, 2⟩ = [0x2d, 0x31, 0x32, 0x2e, 0x35] ∧ (⟨true, 1250, 2⟩ : NumLex.Dec).normalize.scale ≤ 1 := by
   decide
 
+/-- non-vacuity (audit): the theorem at `-12.50` (negative, non-integer, needs normalisation) -/
+example : NumLex.fmtC ⟨true, 1250, 2⟩ = NumLex.fmtRec ⟨true, 1250, 2⟩ := cast_number_string_partial _ (by decide)
+
 /-! ## string → number (F39) -/
 
 /-- Full statement — `strtold` + "everything consumed" recognises the REC's `Number` — is FALSE: `1e3`, `+1`, `0x10`, `inf` are
@@ -116,6 +193,10 @@ theorem cast_string_number_partial (s : Bytes) (h : NumLex.isPlain s = true) : N
 
 example : NumLex.isPlain [0x2d, 0x31, 0x32, 0x2e, 0x35] = true ∧
     NumLex.recNumber [0x2d, 0x31, 0x32, 0x2e, 0x35] = .dec true 125 (-1) := by decide
+
+/-- non-vacuity (audit): the theorem at `-12.5` (sign, integer part, fraction) -/
+example : NumLex.strtoldNumber [0x2d, 0x31, 0x32, 0x2e, 0x35] = .dec true 125 (-1) := by
+  rw [cast_string_number_partial _ (by decide)]; decide
 
 /-! ## floor / ceiling / round (F40) -/
 
@@ -136,6 +217,14 @@ theorem fn_round_partial (d : NumLex.Dec) (h : d.neg = false) : NumLex.roundC d 
 example : NumLex.floorC ⟨false, 275, 2⟩ = 2 ∧ NumLex.ceilC ⟨false, 275, 2⟩ = 3 ∧ NumLex.roundC ⟨false, 25, 1⟩ = 3 ∧
     NumLex.floorC ⟨true, 15, 1⟩ = -1 ∧ NumLex.floorRec ⟨true, 15, 1⟩ = -2 := by decide
 
+/-- non-vacuity (audit): the three `_partial` theorems at `2.75` / `2.5` (first disjunct: non-negative non-integers) and at
+`-3.00` (second disjunct: negative integer) -/
+example : NumLex.floorC ⟨false, 275, 2⟩ = NumLex.floorRec ⟨false, 275, 2⟩ ∧ NumLex.floorC ⟨true, 300, 2⟩ = NumLex.floorRec ⟨true, 300, 2⟩ ∧
+    NumLex.ceilC ⟨false, 275, 2⟩ = NumLex.ceilRec ⟨false, 275, 2⟩ ∧ NumLex.ceilC ⟨true, 300, 2⟩ = NumLex.ceilRec ⟨true, 300, 2⟩ ∧
+    NumLex.roundC ⟨false, 25, 1⟩ = NumLex.roundRec ⟨false, 25, 1⟩ ∧ NumLex.floorRec ⟨true, 300, 2⟩ = -3 ∧ NumLex.roundRec ⟨false, 25, 1⟩ = 3 :=
+  ⟨fn_floor_partial _ (.inl rfl), fn_floor_partial _ (.inr (by decide)), fn_ceiling_partial _ (.inl rfl),
+    fn_ceiling_partial _ (.inr (by decide)), fn_round_partial _ rfl, by decide, by decide⟩
+
 /-! ## string-length (F41) -/
 
 theorem fn_string_length_fails : ¬ ∀ s : Bytes, Str.length true s = Str.length false s :=
@@ -144,6 +233,10 @@ theorem fn_string_length_partial (s : Bytes) (h : ∀ b ∈ s, b.toNat < 128) : 
   Str.length_bytes_eq_chars_of_ascii s h
 
 example : Str.length false [0xc3, 0xbc, 0xe2, 0x82, 0xac] = 2 ∧ Str.length true [0xc3, 0xbc, 0xe2, 0x82, 0xac] = 5 := by decide
+
+/-- non-vacuity (audit): the ASCII hypothesis at the three-character string `a ~` -/
+example : Str.length true [0x61, 0x20, 0x7e] = Str.length false [0x61, 0x20, 0x7e] ∧ Str.length false [0x61, 0x20, 0x7e] = 3 :=
+  ⟨fn_string_length_partial _ (by decide), by decide⟩
 
 /-! ## Key-predicate fast path -/
 
@@ -164,6 +257,31 @@ theorem fastpath_eq_generic {Node Key : Type} [DecidableEq Key] (kids : Node →
 
 example : FastPath.fast (fun (p : Nat) (k : Nat) => ([10 * p + 1, 10 * p + 2, 10 * p + 3].find? fun x => some (x % 10) == some k))
     [1, 2] 2 = [12, 22] := by decide
+
+/-- non-vacuity (audit): `IsIndex` and `KeysUnique` at two context nodes, each with one child that is not an instance of the list
+(`key = none`) and three instances with distinct keys; the index is the linear scan -/
+example :
+    let kids : Nat → List Nat := fun p => [10 * p, 10 * p + 1, 10 * p + 2, 10 * p + 3]
+    let key : Nat → Option Nat := fun x => if x % 10 == 0 then none else some (x % 10)
+    let idx : Nat → Nat → Option Nat := fun p k => (kids p).find? fun x => key x == some k
+    FastPath.IsIndex kids key idx ∧ (∀ p ∈ [1, 2], FastPath.KeysUnique key (kids p)) ∧
+      FastPath.fast idx [1, 2] 2 = FastPath.generic kids key [1, 2] 2 ∧ FastPath.generic kids key [1, 2] 2 = [12, 22] := by
+  intro kids key idx
+  have h1 : FastPath.IsIndex kids key idx := fun _ _ => rfl
+  have h2 : ∀ p ∈ [1, 2], FastPath.KeysUnique key (kids p) := by
+    intro p hp
+    simp only [List.mem_cons, List.not_mem_nil, or_false] at hp
+    rcases hp with rfl | rfl <;> (unfold FastPath.KeysUnique; decide)
+  exact ⟨h1, h2, fastpath_eq_generic kids key idx h1 [1, 2] 2 h2, by decide⟩
+
+-- AUDIT (note, no repair needed): `KeysUnique` is a genuine restriction, not a convenience — it excludes key-less lists and state
+-- leaf-lists with repeated values, for which a first-match lookup returns one node where the filter returns all of them.
+/-- audit: without `KeysUnique` the statement is false (two siblings with the same key) -/
+theorem fastpath_eq_generic_needs_unique_keys :
+    ¬ ∀ (kids : Nat → List Nat) (key : Nat → Option Nat) (idx : Nat → Nat → Option Nat), FastPath.IsIndex kids key idx →
+      ∀ ctx k, FastPath.fast idx ctx k = FastPath.generic kids key ctx k := fun h =>
+  absurd (h (fun _ => [1, 2]) (fun _ => some 7) (fun _ k => [1, 2].find? fun _ => some 7 == some k) (fun _ _ => rfl) [0] 7)
+    (by decide)
 
 /-! ## The engine: node-sets are sets -/
 
@@ -191,5 +309,74 @@ theorem eval_union_exact {N : Type} [XNum N] (env : Env) (a b : Expr) (cx : Cx) 
 /-- a three-element document `<a><b>v</b><c/></a>`: `child::*` from `a` selects `b` and `c`, not the text node -/
 example : (⟨⟨#[⟨0, [], [0x61], false, [], []⟩, ⟨1, [], [0x62], true, [0x76], []⟩, ⟨1, [], [0x63], false, [], []⟩]⟩, {}, 0⟩ : Env).candidates
     .child .any 2 = [4, 6] := by decide
+
+/-- audit witness: `<c><l><k>1</k></l><l><k>2</k></l><ll>x</ll></c>` — a container with two entries of a keyed list and a leaf-list
+instance; references `c`=2, `l`=4/8, `k`=6/10 (text 7/11), `ll`=12 (text 13); all semantics switches off -/
+private def auditEnv : Env :=
+  ⟨⟨#[⟨0, [], [0x63], false, [], []⟩, ⟨1, [], [0x6c], false, [], []⟩, ⟨2, [], [0x6b], true, [0x31], []⟩,
+      ⟨1, [], [0x6c], false, [], []⟩, ⟨4, [], [0x6b], true, [0x32], []⟩, ⟨1, [], [0x6c, 0x6c], true, [0x78], []⟩]⟩, {}, 0⟩
+/-- `//l[k = '2']` -/
+private def auditA : Expr :=
+  .path .root [.mk .descendant (.name none [0x6c]) [.bin .eq (.path .ctx [.mk .child (.name none [0x6b]) []]) (.lit [0x32])]]
+/-- `/c/ll/preceding-sibling::*` -/
+private def auditB : Expr :=
+  .path .root [.mk .child (.name none [0x63]) [], .mk .child (.name none [0x6c, 0x6c]) [], .mk .precedingSibling .any []]
+
+/-- non-vacuity (audit): `eval_nodeset_sorted_nodup` at `//l[k = '2'] | /c/ll/preceding-sibling::*` on the witness document — a
+predicate with a node-set × string comparison, a reverse axis and a union of overlapping operands; the result has two nodes -/
+example {N : Type} [XNum N] : eval (N := N) auditEnv (.bin .union auditA auditB) ⟨0, 1, 1⟩ = .ok (.ns [4, 8]) ∧
+    ([4, 8] : List Ref).Pairwise (· < ·) := by
+  have ha : eval (N := N) auditEnv auditA ⟨0, 1, 1⟩ = .ok (.ns [8]) := rfl
+  have hb : eval (N := N) auditEnv auditB ⟨0, 1, 1⟩ = .ok (.ns [4, 8]) := rfl
+  have h : eval (N := N) auditEnv (.bin .union auditA auditB) ⟨0, 1, 1⟩ = .ok (.ns [4, 8]) := by rw [eval, ha, hb]; rfl
+  exact ⟨h, eval_nodeset_sorted_nodup (N := N) _ _ _ _ h⟩
+
+/-- non-vacuity (audit): `eval_step_exact` on the witness document — `descendant::k` from both list entries, and the reverse axis
+`ancestor-or-self::node()` from a text node and the leaf-list instance (six nodes incl. the root, context nodes in different subtrees) -/
+example {N : Type} [XNum N] :
+    evalSteps (N := N) auditEnv [.mk .descendant (.name none [0x6b]) []] [4, 8] = .ok [6, 10] ∧
+    evalSteps (N := N) auditEnv [.mk .ancestorOrSelf .node []] [7, 12] = .ok [0, 2, 4, 6, 7, 12] ∧
+    ∃ r, evalSteps (N := N) auditEnv [.mk .ancestorOrSelf .node []] [7, 12] = .ok r ∧ r.Pairwise (· < ·) ∧
+      ∀ x, x ∈ r ↔ x ∈ auditEnv.all ∧ ∃ c ∈ [7, 12], auditEnv.inAxis .ancestorOrSelf c x = true ∧
+        auditEnv.matchTest .ancestorOrSelf .node x = true :=
+  ⟨rfl, rfl, eval_step_exact auditEnv rfl _ _ _⟩
+
+/-- non-vacuity (audit): `eval_union_exact` at `//k | /*/*` on the witness document: operands `[6, 10]` and `[4, 8, 12]` interleave -/
+example {N : Type} [XNum N] :
+    ∃ r, eval (N := N) auditEnv (.bin .union (.path .root [.mk .descendant (.name none [0x6b]) []])
+      (.path .root [.mk .child .any [], .mk .child .any []])) ⟨0, 1, 1⟩ = .ok (.ns r) ∧ r.Pairwise (· < ·) ∧
+      ∀ x, x ∈ r ↔ x ∈ auditEnv.all ∧ (x ∈ [6, 10] ∨ x ∈ [4, 8, 12]) :=
+  eval_union_exact (N := N) auditEnv _ _ ⟨0, 1, 1⟩ [6, 10] [4, 8, 12] rfl rfl
+
+-- AUDIT (scope, no repair possible inside this file): `eval_nodeset_sorted_nodup`, `eval_step_exact` and `eval_union_exact` are
+-- statements about the specification engine `XPath/Eval.lean` only (as their docstrings say).  No theorem of this file relates
+-- libyang's path evaluator (`eval_*`, `moveto_*` of xpath.c) to that engine; that part of C08 rests on the correspondence check.
+-- `eval_step_exact` carries the hypothesis `predMerged = false` although the step has no predicates; the hypothesis is harmless
+-- (met by the default `Quirks`) but not needed — `eval_step_exact_any_quirks` below drops it.
+
+/-- audit: `eval_step_exact` for every combination of semantics switches (a step without predicates is not affected by F250) -/
+theorem eval_step_exact_any_quirks {N : Type} [XNum N] (env : Env) (ax : Axis) (t : Test) (s : List Ref) :
+    ∃ r, evalSteps (N := N) env [.mk ax t []] s = .ok r ∧ r.Pairwise (· < ·) ∧
+      ∀ x, x ∈ r ↔ x ∈ env.all ∧ ∃ c ∈ s, env.inAxis ax c x = true ∧ env.matchTest ax t x = true := by
+  cases hq : env.q.predMerged with
+  | false => exact step_exact env hq ax t s
+  | true =>
+    refine ⟨env.norm (if ax.isReverse then (env.norm (s.flatMap (env.candidates ax t))).reverse
+      else env.norm (s.flatMap (env.candidates ax t))), ?_, env.norm_isNodeSet _, ?_⟩
+    · rw [evalSteps]
+      simp only [hq, if_true]
+      rw [evalPreds]
+      simp only [bind, Except.bind, pure, Except.pure, evalSteps]
+    · intro x
+      have hm : x ∈ (if ax.isReverse then (env.norm (s.flatMap (env.candidates ax t))).reverse
+          else env.norm (s.flatMap (env.candidates ax t))) ↔ x ∈ env.norm (s.flatMap (env.candidates ax t)) := by
+        split <;> simp
+      unfold Env.norm at hm ⊢
+      rw [mem_mkNs, hm, mem_mkNs]
+      simp only [Env.all, List.mem_flatMap, Env.candidates, List.mem_filter, Bool.and_eq_true]
+      constructor
+      · rintro ⟨hx, _, c, hc, _, h1, h2⟩; exact ⟨hx, c, hc, h1, h2⟩
+      · rintro ⟨hx, c, hc, h1, h2⟩; exact ⟨hx, hx, c, hc, hx, h1, h2⟩
+
 
 end LyModel.Props.C08
